@@ -662,3 +662,269 @@ theorem subMarks_of_heads (k : Nat) (marks : List (List Nat)) (h : ∀ p ∈ mar
       · simpa [hk] using ih'
 
 end Evl.EncryptTag
+
+namespace Evl.EncryptTag
+open Evl.Encrypt Evl.EncryptTree
+
+/-! ### the shape of a Taggable map is preserved -/
+
+theorem skelI_setIn (k : Nat) (f : V → V) (hf : ∀ v, skel (f v) = skel v) : (es : Items) → skelI (setIn k f es) = skelI es
+  | .nil => rfl
+  | .cons (.key j) v rest => by
+    by_cases hj : j = k
+    · simp [setIn, hj, skelI, hf]
+    · simp [setIn, hj, skelI, skelI_setIn k f hf rest]
+  | .cons (.field _ _) v rest => by simp [setIn, skelI, skelI_setIn k f hf rest]
+  | .cons .elem v rest => by simp [setIn, skelI, skelI_setIn k f hf rest]
+termination_by structural x => x
+
+theorem skel_onMap (f : Items → Items) (hf : ∀ es, skelI (f es) = skelI es) (v : V) : skel (onMap f v) = skel v := by
+  cases v with
+  | map es => simp [onMap, skel, hf]
+  | ptr w => cases w <;> simp [onMap, skel, hf]
+  | _ => simp [onMap]
+
+theorem skelI_setIn_found (k : Nat) (f : V → V) (v0 : V) (hs : skel (f v0) = skel v0) : (es : Items) → find k es = some v0 →
+    skelI (setIn k f es) = skelI es
+  | .nil, h => by simp [find] at h
+  | .cons (.key j) w rest, h => by
+    by_cases hj : j = k
+    · subst hj
+      simp only [find, if_true, Option.some.injEq] at h
+      subst h
+      simp [setIn, skelI, hs]
+    · simp only [find, hj, if_false] at h
+      simp [setIn, hj, skelI, skelI_setIn_found k f v0 hs rest h]
+  | .cons (.field _ _) w rest, h => by
+    simp only [find] at h
+    simp [setIn, skelI, skelI_setIn_found k f v0 hs rest h]
+  | .cons .elem w rest, h => by
+    simp only [find] at h
+    simp [setIn, skelI, skelI_setIn_found k f v0 hs rest h]
+termination_by structural x => x
+
+/-- storing a value of the same shape at a found pointer keeps the shape of the whole map -/
+theorem skelI_setPath (v v' : V) (hs : skel v' = skel v) : (p : List Nat) → (es : Items) → getPath p es = .found v →
+    skelI (setPath p v' es) = skelI es
+  | [], _, h => by simp [getPath] at h
+  | [k], es, h => by
+    have hf : find k es = some v := by
+      simp only [getPath] at h
+      split at h
+      · rename_i w hw; cases h; exact hw
+      · cases h
+    simp only [setPath]
+    exact skelI_setIn_found k _ v hs es hf
+  | k :: k2 :: q, es, h => by
+    simp only [getPath] at h
+    split at h
+    · cases h
+    · rename_i v0 hf
+      split at h
+      · rename_i es0 hm
+        simp only [setPath]
+        refine skelI_setIn_found k _ v0 ?_ es hf
+        cases v0 with
+        | map es1 =>
+          simp only [asMap, Option.some.injEq] at hm
+          subst hm
+          simp [onMap, skel, skelI_setPath v v' hs (k2 :: q) es1 h]
+        | ptr w1 =>
+          cases w1 with
+          | map es1 =>
+            simp only [asMap, Option.some.injEq] at hm
+            subst hm
+            simp [onMap, skel, skelI_setPath v v' hs (k2 :: q) es1 h]
+          | _ => simp [asMap] at hm
+        | _ => simp [asMap] at hm
+      · split at h <;> cases h
+
+/-- what `filterValue` stores at a pointer has the shape of what it found there -/
+theorem filterTagged_skel (c : Ctx) (t : TagInfo) (v v' : V) (h : filterTagged c t v = some v') : skel v' = skel v := by
+  have leafCase : ∀ (a : Action) (m : Nat) (l : Leaf), filterLeaf c.k c.ek a m = some l → skelLeaf l = skelLeaf (.plain m) := by
+    intro a m l hl
+    rcases filterLeaf_cases hl with ⟨_, rfl⟩ | ⟨_, _, h3⟩
+    · rfl
+    · rw [h3]; rfl
+  cases v with
+  | leaf l =>
+    cases l with
+    | plain m =>
+      simp only [filterTagged] at h
+      obtain ⟨l', hl, rfl⟩ := map_some h
+      simp [skel, leafCase _ m l' hl]
+    | nilBytes => simp only [filterTagged, Option.some.injEq] at h; subst h; rfl
+    | _ =>
+      simp only [filterTagged] at h
+      split at h
+      · cases h; rfl
+      · cases h
+  | nilPtr => simp only [filterTagged, Option.some.injEq] at h; subst h; rfl
+  | ptr w =>
+    cases w with
+    | leaf l =>
+      cases l with
+      | plain m =>
+        simp only [filterTagged] at h
+        obtain ⟨l', hl, rfl⟩ := map_some h
+        simp [skel, leafCase _ m l' hl]
+      | _ =>
+        simp only [filterTagged] at h
+        split at h
+        · cases h; rfl
+        · cases h
+    | _ =>
+      simp only [filterTagged] at h
+      split at h
+      · cases h; rfl
+      · cases h
+  | _ =>
+    simp only [filterTagged] at h
+    split at h
+    · cases h; rfl
+    · cases h
+
+theorem applyTag_skel (c : Ctx) (s s' : TS) (t : PTag) (h : applyTag c s t = some s') : skelI s'.es = skelI s.es := by
+  unfold applyTag at h
+  split at h
+  · cases h; rfl
+  · cases h
+  · rename_i v hg
+    split at h
+    · cases h
+    · rename_i v' hf
+      cases h
+      exact skelI_setPath v v' (filterTagged_skel c _ v v' hf) t.path s.es hg
+
+theorem applyTags_skel (c : Ctx) : (tags : List PTag) → (s s' : TS) → applyTags c tags s = some s' → skelI s'.es = skelI s.es
+  | [], s, s', h => by
+    simp only [applyTags, Option.some.injEq] at h
+    subst h; rfl
+  | t :: ts, s, s', h => by
+    simp only [applyTags] at h
+    split at h
+    · cases h
+    · rename_i s1 h1
+      rw [applyTags_skel c ts s1 s' h, applyTag_skel c s s1 t h1]
+
+mutual
+theorem filtT_skel (c : Ctx) (marks : List (List Nat)) (skip : Bool) : (es es' : Items) → filtT c marks skip es = some es' →
+    skelI es' = skelI es
+  | .nil, es', h => by
+    simp only [filtT, Option.some.injEq] at h
+    subst h; rfl
+  | .cons (.key k) v rest, es', h => by
+    simp only [filtT] at h
+    split at h
+    · rename_i v' r hv hr
+      cases h
+      simp only [skelI, filtTV_skel c _ _ v v' hv, filtT_skel c marks skip rest r hr]
+    · cases h
+  | .cons (.field _ _) v rest, es', h => by
+    simp only [filtT] at h
+    obtain ⟨r, hr, rfl⟩ := map_some h
+    simp only [skelI, filtT_skel c marks skip rest r hr]
+  | .cons .elem v rest, es', h => by
+    simp only [filtT] at h
+    obtain ⟨r, hr, rfl⟩ := map_some h
+    simp only [skelI, filtT_skel c marks skip rest r hr]
+termination_by structural x _ _ => x
+theorem filtTV_skel (c : Ctx) (sub : List (List Nat)) (marked : Bool) : (v v' : V) → filtTV c sub marked v = some v' →
+    skel v' = skel v
+  | .map es, v', h => by
+    simp only [filtTV] at h
+    split at h
+    · split at h
+      · cases h; rfl
+      · obtain ⟨w, hw, rfl⟩ := map_some h
+        simp only [skel, filtEntries_skel c es w hw]
+    · obtain ⟨w, hw, rfl⟩ := map_some h
+      simp only [skel, filtT_skel c sub _ es w hw]
+  | .ptr w0, v', h => by
+    simp only [filtTV] at h
+    split at h
+    · split at h
+      · cases h; rfl
+      · obtain ⟨w, hw, rfl⟩ := map_some h
+        simp only [skel, filtEntryTarget_skel c w0 w hw]
+    · obtain ⟨w, hw, rfl⟩ := map_some h
+      simp only [skel, filtTP_skel c sub marked w0 w hw]
+  | .leaf l, v', h => by
+    simp only [filtTV] at h
+    split at h
+    · cases h; rfl
+    · obtain ⟨l', hl, rfl⟩ := map_some h
+      simp only [skel, filterStr_skel hl]
+  | .leaves ls, v', h => by
+    simp only [filtTV] at h
+    split at h
+    · cases h; rfl
+    · obtain ⟨l', hl, rfl⟩ := map_some h
+      simp only [skel, filterStrs_skel hl]
+  | .struct fs, v', h => by
+    simp only [filtTV] at h
+    split at h
+    · cases h; rfl
+    · obtain ⟨w, hw, rfl⟩ := map_some h
+      simp only [skel, filtFields_skel c true fs w hw]
+  | .slice vs, v', h => by
+    simp only [filtTV] at h
+    split at h
+    · cases h; rfl
+    · obtain ⟨w, hw, rfl⟩ := map_some h
+      simp only [skel, filtMapSlice_skel c vs w hw]
+  | .iface v, v', h => by
+    simp only [filtTV] at h
+    split at h
+    · cases h; rfl
+    · obtain ⟨w, hw, rfl⟩ := map_some h
+      simp only [skel, filtEntry_skel c v w hw]
+  | .nilPtr, v', h => by
+    simp only [filtTV, Option.some.injEq] at h
+    subst h; rfl
+termination_by structural x _ _ => x
+theorem filtTP_skel (c : Ctx) (sub : List (List Nat)) (marked : Bool) : (w w' : V) → filtTP c sub marked w = some w' →
+    skel w' = skel w
+  | .map es, w', h => by
+    simp only [filtTP] at h
+    obtain ⟨r, hr, rfl⟩ := map_some h
+    simp only [skel, filtT_skel c sub _ es r hr]
+  | .struct fs, w', h => by
+    simp only [filtTP] at h
+    split at h
+    · cases h; rfl
+    · exact filtEntryTarget_skel c _ w' h
+  | .leaf l, w', h => by
+    simp only [filtTP] at h
+    split at h
+    · cases h; rfl
+    · exact filtEntryTarget_skel c _ w' h
+  | .leaves ls, w', h => by
+    simp only [filtTP] at h
+    split at h
+    · cases h; rfl
+    · exact filtEntryTarget_skel c _ w' h
+  | .slice vs, w', h => by
+    simp only [filtTP] at h
+    split at h
+    · cases h; rfl
+    · exact filtEntryTarget_skel c _ w' h
+  | .nilPtr, w', h => by
+    simp only [filtTP] at h
+    split at h
+    · cases h; rfl
+    · exact filtEntryTarget_skel c _ w' h
+  | .ptr v, w', h => by
+    simp only [filtTP] at h
+    split at h
+    · cases h; rfl
+    · exact filtEntryTarget_skel c _ w' h
+  | .iface v, w', h => by
+    simp only [filtTP] at h
+    split at h
+    · cases h; rfl
+    · exact filtEntryTarget_skel c _ w' h
+termination_by structural x _ _ => x
+end
+
+end Evl.EncryptTag
